@@ -17,6 +17,38 @@ CHECKS = {
          "Each of the 37 linear operations is crossed with boundary+seeded operand pools and proptest-generated 64-bit operands and judged by the biconditional 'Ok(exact) <=> exact result in range'; add_days/sub_days are judged against the exact set of admissible microsecond offsets computed without floating point. Sampled over 64-bit operands; boundary regions are covered by construction.",
          "Trusted: i128 arithmetic and the dyadic decomposition of doubles (unit-tested). Error kinds are not constrained by the statement and are not checked.",
          "4/C08"),
+ "C04": ("exhaustive single-token sweeps + proptest composite pictures vs. independent reference renderer (differential)",
+         "Every date x every date token, every second x every time token, every microsecond x every fraction token, the (type x token) applicability matrix over boundary pools, and proptest-generated composite pictures of up to 40 tokens are rendered by an independent reference renderer and compared byte for byte through both formatting entry points. Complete for single tokens over the date / second / microsecond axes; sampled for composite pictures.",
+         "Trusted: the reference tokenizer/renderer written from the C04/C19 statements and the walked calendar. Case left open by the statement (lU name tokens, mixed-case meridian) is compared ignoring case.",
+         "4/C04"),
+ "C09": ("exhaustive enumeration vs. floor-division month model on the walked calendar",
+         "All 3,652,059 dates x ~100 month offsets each (small offsets, the offsets reaching the first/last supported month and one beyond, the interval limits, seeded) through Date, and through Timestamp/OracleDate at critical times; last_day_of_month for all dates x times. The expected instant is computed by floor division and a calendar lookup; Ok iff that day exists in years 1..9999.",
+         "Trusted: walked calendar, integer model. Quick tier visits every third date (plus all days >= 28) for the Timestamp/OracleDate copies; thorough visits all.",
+         "4/C09"),
+ "C10": ("exhaustive enumeration vs. per-unit boundary predicates (model-based)",
+         "All dates x 12 units on Date, all dates x 15 critical times x 12 units on Timestamp and OracleDate, and every second of sampled days: the result must be the latest unit boundary not after the input as given by independent per-unit predicates over the walked calendar; Err iff none in range; idempotence re-checked through the library.",
+         "Trusted: the 12 one-line boundary predicates and the walked calendar. Arbitrary microseconds inside a day matter only for hour/minute units, which are covered per second on sampled days.",
+         "4/C10"),
+ "C11": ("exhaustive enumeration vs. boundary predicates + documented midpoint rule; metamorphic mirror and monotonicity checks",
+         "Same domain as C10 for the 12 rounding units on the three types: the result must be the earlier/later neighbouring boundary selected by the documented midpoint, unchanged on a boundary, monotone between consecutive sweep points, Err exactly when the chosen boundary is out of range; shortened weeks accept either neighbour but are pinned at the top of the range by the mirror relation with year 9998. Known finding K1 is matched by signature.",
+         "Trusted: boundary predicates, the midpoint table written from the statement and lib.rs docs. K1 (century years) is reported as KNOWN-FINDING, everything else is a violation.",
+         "4/C11"),
+ "C12": ("exhaustive seconds x boundary intervals + proptest pairs vs. i128 modular arithmetic",
+         "Every second of the day x boundary microseconds x boundary intervals x add/sub, proptest-generated (time, interval) pairs with shrinking, sub_time on pool pairs, interval->time conversion and mixed comparisons in both orders, against (t +- i) mod 86400e6 in i128.",
+         "Trusted: i128 arithmetic. Arbitrary (time, interval) pairs are sampled.",
+         "4/C12"),
+ "C13": ("enumeration (all year-month values in thorough) + pools + validity grids vs. sign/div/rem model",
+         "Thorough enumerates all 4,272,000,001 year-month intervals; quick strides by 997 plus windows at zero and both limits. Day-time intervals: every second within +-2 days, powers of ten, unit multiples +-1us, limits and up to 8e6 seeded values; constructor grids with u32 extremes; all against sign + div/rem decomposition, exact negation and numeric order.",
+         "Trusted: i128 arithmetic. Day-time intervals are sampled outside the +-2 day window.",
+         "4/C13"),
+ "C14": ("pool x classed-scalar sweeps + proptest vs. exact dyadic-rational arithmetic (no floating point in the oracle)",
+         "Interval/Time x mul_f64/div_f64 over boundary pools x classed doubles (integers, dyadic, decimal, tiny, huge, zeros, infinities, NaN, edge-seeking limit/x) and proptest-generated pairs: the result must lie in the exactly computed admissible set (relative 2^-52 then truncation toward zero; single value for integer multipliers below 2^53), errors must have the kind the statement names, and sign symmetry must hold on whole Results.",
+         "Trusted: the dyadic decomposition (unit-tested); the admissible set is a superset of the statement's tolerance by at most a relative 2^-60, so ties cannot alarm.",
+         "4/C14"),
+ "C19": ("exhaustive short strings + proptest token sequences vs. reference longest-match tokenizer, observed through a probe rendering; both build profiles",
+         "Every string up to length 4 (quick) / 5 (thorough) over a 39-symbol alphabet, blank runs of every length up to 700, the 36-token limit, near-miss spellings and proptest token sequences of up to 40 tokens are compiled; acceptance must equal the reference tokenizer's and the probe rendering must equal the reference rendering of the reference token list (token identity, name case, blank-run length). Run under release and under overflow-checked builds.",
+         "Trusted: the reference tokenizer written from the token list in the statement. Language membership beyond length 5 is sampled by grammar-based generation.",
+         "4/C19"),
 }
 
 ALL = ["C%02d" % i for i in range(1, 20)]
